@@ -189,3 +189,78 @@ def analyse_cmp(mir_text, kinds, real=("IntV", "NumV", "Rational", "BigNum", "Bi
             pair = (kinds[int(vs[0], 16)], kinds[int(vs[1], 16)])
     return {"res": res, "pair": pair, "handled": len(hp), "real_pairs_handled": sum(1 for a in ridx for b in ridx if (a, b) in hp),
             "real": list(real), "dt": time.time() - t0}
+
+
+# E3n: values of two DIFFERENT built-in kinds that the equality handler compares structurally must not be told apart by
+# the hash: `impl Hash for SteelVal` mixes the kind (discriminant) in.
+HASH_PAIR_EXPR = {("VectorV", "MutableVector"): ("(immutable-vector 1 2)", "(vector 1 2)"), ("MutableVector", "VectorV"): ("(vector 1 2)", "(immutable-vector 1 2)")}
+
+
+def analyse_hash(mir_text, kinds, exclude=("Custom",)):
+    """tables: cross(k1, k2) = the equality handler has an arm of its own for the ordered pair of different kinds;
+    tag(k) = what `Hash::hash` mixes in for the kind before the contents: the discriminant (k itself) unless the arm of k
+    is reached without hashing the discriminant.  Query: exists k1 != k2 (not user-defined custom types, whose equality
+    is the user's) with cross(k1, k2) and tag(k1) != tag(k2)."""
+    funcs = mir.parse(mir_text, lambda n: n.endswith("::visit") or n.endswith("::hash"))
+    visit = hashf = None
+    for f in funcs.values():
+        if f.name.endswith("::visit") and "RecursiveEqualityHandler" in f.args_s:
+            visit = f
+        if f.name.endswith("::hash") and "<impl at" in f.name and "rvals.rs" in f.name and re.match(r"_1: &(?:rvals::)?SteelVal, _2: &mut H", f.args_s.strip()):
+            hashf = f
+    if visit is None or hashf is None:
+        raise ValueError("RecursiveEqualityHandler::visit or Hash::hash for SteelVal not found in the MIR dump")
+    n = len(kinds)
+    cross = sorted((a, b) for a, b in handled_pairs(visit, n) if a != b and kinds[a] not in exclude and kinds[b] not in exclude)
+    # the tag: does every path from the entry to the switch on the kind pass `<Discriminant<SteelVal> as Hash>::hash`?
+    sw = None
+    for bb, (t, place) in _disc_switches(hashf).items():
+        if len(t["targets"]) >= 10:
+            sw = (bb, t)
+    if sw is None:
+        raise ValueError("no switch on the value's kind in Hash::hash")
+    dsw = {bb: t for bb, (t, place) in _disc_switches(hashf).items()}
+
+    def tag_of(k):
+        """walk from the entry with the kind known: what is hashed BEFORE the contents"""
+        x, hops = 0, 0
+        while x is not None and hops < 60:
+            hops += 1
+            b = hashf.blocks[x]
+            t = b.term
+            if t.get("kind") == "call":
+                if re.search(r"Discriminant<.*> as (?:std::hash::|core::hash::)?Hash>::hash", t["callee"]):
+                    return k
+                mm = re.search(r"<(u8|u16|u32|u64|usize|i32|isize) as (?:std::hash::|core::hash::)?Hash>::hash", t["callee"])
+                if mm:
+                    o = mir.origin(hashf, t["args"][0])
+                    c = re.search(r"const (\d+)_", o)
+                    return 200 + (int(c.group(1)) % 50 if c else 49)
+                if re.search(r"Hash>::hash", t["callee"]):
+                    return 255  # contents hashed with no tag in front
+                x = t.get("to")
+            elif t.get("kind") == "switch":
+                if x not in dsw:
+                    raise ValueError("Hash::hash branches on something other than the kind before hashing a tag")
+                nxt = None
+                for v, tgt in t["targets"]:
+                    if v == k:
+                        nxt = tgt
+                x = nxt if nxt is not None else t["otherwise"]
+            elif t.get("kind") in ("goto", "drop"):
+                x = t.get("to")
+            else:
+                return 255
+        return 255
+    tags = {k: tag_of(k) for k in range(n)}
+    mixes_discriminant = all(tags[k] == k for k in range(n))
+    q = "(set-logic QF_BV)\n(declare-const a (_ BitVec 8))\n(declare-const b (_ BitVec 8))\n"
+    tt = lambda v: "".join("(ite (= %s (_ bv%d 8)) (_ bv%d 8) " % (v, k, tags[k]) for k in range(n)) + "(_ bv254 8)" + ")" * n
+    cr = "(or false %s)" % " ".join("(and (= a (_ bv%d 8)) (= b (_ bv%d 8)))" % (x, y) for x, y in cross)
+    q += "(assert %s)\n(assert (distinct %s %s))\n(check-sat)\n" % (cr, tt("a"), tt("b"))
+    t0 = time.time()
+    p = subprocess.run(["z3", "-in", "-T:30"], input=q, capture_output=True, text=True)
+    res = p.stdout.strip().split("\n")[0] if p.stdout.strip() else "error"
+    if "(error" in p.stdout or res not in ("sat", "unsat"):
+        res = "error"
+    return {"res": res, "cross": [(kinds[a], kinds[b]) for a, b in cross], "mixes_discriminant": mixes_discriminant, "dt": time.time() - t0}
